@@ -69,10 +69,11 @@ type env struct {
 	leanLines            int
 	lastRoots            [3]common.Hash
 	// after a "CB" (copy, then drive BOTH sides): the copy lives in twin, with its own model slot
-	slot   int
+	slot    int
 	curSlot *int // model slot the driver currently points at (shared by both sides)
-	twin   *env
-	nCB    int
+	twin    *env
+	nCB     int
+	nShadow int
 }
 
 func newEnv(drv *vh.Driver) (*env, error) {
@@ -457,10 +458,17 @@ func (e *env) exec(line string) bool {
 		t.fails = nil
 		return ok
 	}
+	var shadow *state.StateDB
+	if e.shadowWanted(f, line) {
+		guarded(func() { shadow = e.st.Copy() })
+	}
 	ok := false
 	if p := guarded(func() { ok = e.exec1(f, line) }); p != nil {
 		e.fail("crash", "panic in the state code at %q: %v", line, p)
 		return true
+	}
+	if ok && shadow != nil && len(e.fails) == 0 {
+		e.checkShadow(shadow, f, line)
 	}
 	if ok {
 		e.executed++
@@ -485,12 +493,6 @@ func (e *env) exec1(f []string, line string) bool {
 		a, ok := addrOf(f[1])
 		n, ok2 := bigOf(f[2])
 		if !ok || !ok2 || n.Sign() < 0 {
-			return false
-		}
-		// guard: no funds to an object that self-destructed in this transaction. The deleted object keeps that balance
-		// in the live cache and a later CreateAccount of the same address carries it over (createObject takes the
-		// deleted object as prev), which a copy / reopened state cannot do: hidden state outside the enumeration
-		if f[0] != "SN" && n.Sign() > 0 && st.HasSuicided(a) {
 			return false
 		}
 		switch f[0] {
@@ -840,6 +842,43 @@ func (e *env) exec1(f []string, line string) bool {
 	return true
 }
 
+// ---- "a copy is equal to the original" under the next operation ----------------------------------------------------
+//
+// Before some write lines (always before CreateAccount, else chosen by a hash of the line, so that replays agree) a
+// Copy() of the state is taken; the same line is then applied to the copy and both must show the same afterwards.
+
+func (e *env) shadowWanted(f []string, line string) bool {
+	switch f[0] {
+	case "CA":
+		return true
+	case "SB", "AB", "UB", "SN", "SC", "SS", "SU", "UD", "DG", "VD", "CV", "UV", "SR", "AW", "RW", "AS", "AP":
+		h := uint32(2166136261)
+		for i := 0; i < len(line); i++ {
+			h = (h ^ uint32(line[i])) * 16777619
+		}
+		return h%12 == 0
+	}
+	return false
+}
+
+func (e *env) checkShadow(shadow *state.StateDB, f []string, line string) {
+	se := &env{disk: e.disk, db: e.db, st: shadow, w: e.w, curSlot: new(int)}
+	ok := false
+	if p := guarded(func() { ok = se.exec1(f, line) }); p != nil {
+		e.fail("oracle", "a copy taken before %q panics under that operation: %v", line, p)
+		return
+	}
+	if !ok {
+		e.fail("oracle", "a copy taken before %q refuses the operation the original accepted", line)
+		return
+	}
+	e.nShadow++
+	a, b := observe(e.w, e.st, true), observe(e.w, shadow, true)
+	if a != b {
+		e.fail("oracle", "copy-then-op differs from op on the original (%s):\n orig=%s\n copy=%s", f[0], a, b)
+	}
+}
+
 // ---- Copy: equal now, independent afterwards -------------------------------------------------------------------
 
 func (e *env) doCopy(continueOnCopy bool) {
@@ -865,7 +904,11 @@ func (e *env) doCopy(continueOnCopy bool) {
 				rootsStr(exp), fr.leanExp, dumpLeaves(twin), e.lean("DUMP"))
 		}
 	}
-	e.lean("CP")
+	if continueOnCopy {
+		e.lean("CP")
+	} else {
+		e.lean("GV")
+	}
 	if continueOnCopy {
 		fr.label, fr.st = "original (work continued on the copy)", e.st
 		e.st = cp
